@@ -13,14 +13,17 @@ open Rtp Rtp.Proto Rtp.Model
      pres := ok <packet> <nExt> <int payOff> <list int locs> <list u8 ids> <list obytes gets> | err <k> | panic
 -/
 
+/-- a value returned by GetExtension: `nil` and the empty slice are identified -/
+def rdVal : Rd (Option Bytes) := do let v ← Rd.obytes; pure (Pred.C02.canonV v)
+
 def rdHdrOk : Rd Pred.C02.HdrOk := do
   let h ← rdHeader; let n ← Rd.nat; let ne ← Rd.nat; let locs ← Rd.list Rd.int
-  let ids ← Rd.list Rd.u8; let gets ← Rd.list Rd.obytes
+  let ids ← Rd.list Rd.u8; let gets ← Rd.list rdVal
   pure { h := h, n := n, nExt := ne, locs := locs, ids := ids, gets := gets }
 
 def rdPktOk : Rd Pred.C02.PktOk := do
   let p ← rdPacket; let ne ← Rd.nat; let off ← Rd.int; let locs ← Rd.list Rd.int
-  let ids ← Rd.list Rd.u8; let gets ← Rd.list Rd.obytes
+  let ids ← Rd.list Rd.u8; let gets ← Rd.list rdVal
   pure { p := p, nExt := ne, payOff := off, locs := locs, ids := ids, gets := gets }
 
 def rdRecv : Rd Pred.C02.Recv := do
@@ -58,7 +61,7 @@ def rdStart : Rd Pred.C05.Start := do
   | "wire" => do let ps ← Rd.list Rd.bytes; let b ← Rd.bytes; pure (.wire ps b)
   | _ => Rd.fail
 
-def rdIdVal : Rd (UInt8 × Option Bytes) := do let id ← Rd.u8; let v ← Rd.obytes; pure (id, v)
+def rdIdVal : Rd (UInt8 × Option Bytes) := do let id ← Rd.u8; let v ← rdVal; pure (id, v)
 
 def rdReads : Rd Pred.C05.Reads := do
   let x ← Rd.bool; let prof ← Rd.u16
